@@ -152,7 +152,13 @@ func (m *maxDifferenceWatermarkGenerator) Run(ctx execution.ExecutionContext, pr
 			}
 		}
 
-		curTimeValueRoundedDown := time.Unix(0, record.Values[m.timeFieldIndex].Time.UnixNano()/int64(resolution.Duration)*int64(resolution.Duration))
+		curTimeNanos := record.Values[m.timeFieldIndex].Time.UnixNano()
+		curTimeNanosRoundedDown := curTimeNanos / int64(resolution.Duration) * int64(resolution.Duration)
+		if curTimeNanosRoundedDown > curTimeNanos {
+			// Go's division truncates toward zero, so instants before 1970 would otherwise be rounded up.
+			curTimeNanosRoundedDown -= int64(resolution.Duration)
+		}
+		curTimeValueRoundedDown := time.Unix(0, curTimeNanosRoundedDown)
 
 		if curTimeValueRoundedDown.After(maxValue) {
 			maxValue = curTimeValueRoundedDown
